@@ -284,7 +284,10 @@ def run_config(ae_cache, family, kname, cfg):
     pas = build_arrays(system, len(FAMILIES[family]))
     kernel = getattr(KM, kname)(dim=dim)
     ae = make_eval(pas, family, kernel, dim)
-    nnps = getattr(NN, cfg['nnps'])(dim=dim, particles=pas, cache=cfg['cache'])
+    # fixed_h only says that h does not change with time; it must not change
+    # the (symmetric) neighbour criterion
+    nnps = getattr(NN, cfg['nnps'])(dim=dim, particles=pas, cache=cfg['cache'],
+                                    fixed_h=bool(cfg.get('fixed_h', False)))
     nnps.update()
     ae.set_nnps(nnps)
     ae.compute(0.0, 0.1)
@@ -360,7 +363,7 @@ def plan(seed, tier, wide=False):
                                      for _ in range(narr)]
                             cfgs.append({'dim': d, 'sizes': sizes,
                                          'seed': rng.randrange(2 ** 30),
-                                         'nnps': nn, 'cache': rng.random() < 0.5,
+                                         'nnps': nn, 'cache': rng.random() < 0.5, 'fixed_h': rng.random() < 0.4,
                                          'wdeltap': rng.choice([0.8, 1.7, -1.0])})
                 tasks.append((fam, kname, narr, cfgs))
     only = os.environ.get('C09_ONLY')          # debugging aid: fam:kernel:narr
